@@ -258,15 +258,30 @@ func c15Cases(signMode bool, user string) []c15Case {
 	return out
 }
 
+// c15Noise is a long name that does not compress (tokens made from it are long, whatever the token format does
+// about length).
+func c15Noise(n int) string {
+	const al = "abcdefghijklmnopqrstuvwxyzABCDEFGHIJKLMNOPQRSTUVWXYZ0123456789._-"
+	b := make([]byte, n)
+	x := uint32(2463534242)
+	for i := range b {
+		x ^= x << 13
+		x ^= x >> 17
+		x ^= x << 5
+		b[i] = al[x%uint32(len(al))]
+	}
+	return string(b)
+}
+
 func c15(env *Env, rep *Report) {
-	rep.Rule = "for both key modes (encrypt-only, sign-and-encrypt) and user names {empty, a, alice, alice@example.com, 300 characters, non-ASCII, quotes and newline}: from a token minted by the real GenerateUserToken every single-character substitution in each of the five JWE segments with 67 characters (quick: for the user alice; thorough: all users), insertions into the empty segment, every truncation, segment counts 0..7, arbitrary strings; tokens crafted under other encryption / signing keys, cross-mode tokens, other content-encryption and key algorithms (A256GCM, A128GCM, A256CBC-HS512, A128KW, A256KW, PBES2), issuers, expiry offsets {now-1h, now-70s, now-50s, now+50s, now+1h}, no exp, future nbf, plain HS256 / unsecured JWTs; each through security.UserInfo and the real web.TokenInfo handler; a clock history (token minted at t0 checked at t0, t0+4 min, t0+7 min; token minted at t0+7 min; both at t0+27 min) on the harness clock that the security package's time.Now follows; plus /tokeninfo methods {GET, POST, PUT, HEAD, DELETE} and parameter {absent, empty, twice}. " +
+	rep.Rule = "for both key modes (encrypt-only, sign-and-encrypt) and user names {empty, a, alice, alice@example.com, 300 equal characters, 200 / 255 / 400 incompressible characters, non-ASCII, quotes and newline}: from a token minted by the real GenerateUserToken every single-character substitution in each of the five JWE segments with 67 characters (quick: for the user alice; thorough: all users), insertions into the empty segment, every truncation, segment counts 0..7, arbitrary strings; tokens crafted under other encryption / signing keys, cross-mode tokens, other content-encryption and key algorithms (A256GCM, A128GCM, A256CBC-HS512, A128KW, A256KW, PBES2), issuers, expiry offsets {now-1h, now-70s, now-50s, now+50s, now+1h}, no exp, future nbf, plain HS256 / unsecured JWTs; each through security.UserInfo and the real web.TokenInfo handler; a clock history (token minted at t0 checked at t0, t0+4 min, t0+7 min; token minted at t0+7 min; both at t0+27 min) on the harness clock that the security package's time.Now follows; plus /tokeninfo methods {GET, POST, PUT, HEAD, DELETE} and parameter {absent, empty, twice}. " +
 		"Oracle (three-valued, independent AES-CBC-HMAC / HS256 verification): 200 + claims with sub == user only for must-accept tokens; must-refuse tokens get 403 and the body discloses no claim; 400 / 405 as stated; the user name occurs neither in the token text nor in any base64-decoded segment. distinct_nontrivial = distinct (mode, user, token) cases."
 	rep.Assumptions = append(rep.Assumptions, "expiry cases keep 10 s from the leeway boundary", "a non-empty encrypted-key segment or extra header parameters under valid keys are unspecified")
 	users := []string{"alice"}
 	if env.thorough() {
 		users = []string{"", "a", "alice", "alice@example.com", strings.Repeat("u", 300), "ünï-漢字", "al\"ice\nx"}
 	}
-	more := []string{"", "a", "alice@example.com", strings.Repeat("u", 300), "ünï-漢字", "al\"ice\nx"}
+	more := []string{"", "a", "alice@example.com", strings.Repeat("u", 300), "ünï-漢字", "al\"ice\nx", c15Noise(200), c15Noise(255), c15Noise(400)}
 	n, distinct := 0, 0
 	one := func(signMode bool, user string, c c15Case, full bool) {
 		n++
